@@ -26,7 +26,7 @@ func init() {
 	register(&Rule{ID: "R-COMMAOK", Floor: 30, Run: ruleCommaOk,
 		Text: "The value of a comma-ok type assertion or map lookup is used only where its ok result is known to be true; on the other branch it is the zero value."})
 	register(&Rule{ID: "R-OPTCLOSED", Floor: 4, Run: ruleOptClosed,
-		Text: "The optimizer's rewrite set is closed: each pass names only the opcodes whose rewrites the other rules check (constant folding of + - * / == != √ over pushes, constant conditional jumps, NOP removal with jump retargeting, truncation after the first return).  A rewrite of any other opcode is not covered by any soundness argument here and is reported as undecided."})
+		Text: "The optimizer's rewrite set is closed: each pass names only the opcodes whose rewrites the other rules check (constant folding of + - * / == != √ over pushes, constant conditional jumps, NOP removal with jump retargeting, truncation after the first return).  A rewrite of any other opcode is not covered by any soundness argument here and is reported as undecided.  The opcodes a pass *writes* into the program are closed in the same way (NOP, true/false for a folded comparison, the final return of the truncation): an instruction of another kind emitted by the optimizer — a constant reference, say — is reported as undecided."})
 	register(&Rule{ID: "R-LOCKPAIR", Floor: 4, Run: ruleLockPair,
 		Text: "Every acquisition of a mutex in the library is released on every path to the function's exit (explicitly or by a deferred unlock registered right after it)."})
 	register(&Rule{ID: "R-DIVCONTEXT", Floor: 5, Run: ruleDivContext,
